@@ -155,3 +155,62 @@ func (ix *Index) CheckAgainst(s *Segment) string {
 	}
 	return ""
 }
+
+// Build serialises raw Kafka v2 batches (each with its base offset already
+// patched) into a segment and its index, following the documented layout.
+// indexInterval: an index entry is added for the first batch and then whenever
+// at least that many messages were written since the last entry.
+func Build(batches [][]byte, createdMs int64, indexInterval int32) (segment, index []byte, err error) {
+	if len(batches) == 0 {
+		return nil, nil, fmt.Errorf("kseg: no batches")
+	}
+	if indexInterval <= 0 {
+		indexInterval = 1
+	}
+	var body []byte
+	var entries []IndexEntry
+	total := int32(0)
+	since := int32(0)
+	var base, last int64
+	for i, raw := range batches {
+		b, n, perr := kbatch.ParseOne(raw)
+		if perr != nil || n != len(raw) {
+			return nil, nil, fmt.Errorf("kseg: batch %d: %v", i, perr)
+		}
+		if i == 0 {
+			base = b.BaseOffset
+		}
+		if len(entries) == 0 || since >= indexInterval {
+			entries = append(entries, IndexEntry{b.BaseOffset, int32(32 + len(body))})
+			since = 0
+		}
+		since += b.RecordCount
+		total += b.RecordCount
+		last = b.BaseOffset + int64(b.LastOffsetDelta)
+		body = append(body, raw...)
+	}
+	seg := make([]byte, 32, 32+len(body)+16)
+	copy(seg, "KAFS")
+	binary.BigEndian.PutUint16(seg[4:6], 1)
+	binary.BigEndian.PutUint64(seg[8:16], uint64(base))
+	binary.BigEndian.PutUint32(seg[16:20], uint32(total))
+	binary.BigEndian.PutUint64(seg[20:28], uint64(createdMs))
+	seg = append(seg, body...)
+	foot := make([]byte, 16)
+	binary.BigEndian.PutUint32(foot[0:4], crc32.Checksum(body, castagnoli))
+	binary.BigEndian.PutUint64(foot[4:12], uint64(last))
+	copy(foot[12:], "END!")
+	seg = append(seg, foot...)
+	ix := make([]byte, 16, 16+12*len(entries))
+	copy(ix, "IDX\x00")
+	binary.BigEndian.PutUint16(ix[4:6], 1)
+	binary.BigEndian.PutUint32(ix[6:10], uint32(len(entries)))
+	binary.BigEndian.PutUint32(ix[10:14], uint32(indexInterval))
+	for _, e := range entries {
+		var eb [12]byte
+		binary.BigEndian.PutUint64(eb[0:8], uint64(e.Offset))
+		binary.BigEndian.PutUint32(eb[8:12], uint32(e.Position))
+		ix = append(ix, eb[:]...)
+	}
+	return seg, ix, nil
+}
